@@ -214,7 +214,7 @@ def encode_strategy(tier):
 
 
 TEXT_TOKENS = ["-999", "nan", "NA", "missing", "-999.0", "NaN"]
-NC_MISSING = ["fill", "-999", "nan", "big"]
+NC_MISSING = ["fill", "-999", "nan", "big", "fill-9999", "missing_value"]
 _counter = [0]
 
 
@@ -303,6 +303,9 @@ def reader_items(tier):
         items.append({"fn": "text", "token": tok, "missing": True})
     for tok, v in [("0", 0.0), ("-998", -998.0), ("-1000", -1000.0), ("3.25", 3.25), ("1e2", 100.0), ("-0.5", -0.5), ("999", 999.0), ("-999.5", -999.5), ("+7", 7.0)]:
         items.append({"fn": "text", "token": tok, "missing": False, "value": v})
+    items.append({"fn": "clean64", "value": 1e30, "missing": False})      # exactly 1e30 is not above 1e30
+    items.append({"fn": "clean64", "value": 1.0000001e30, "missing": True})
+    items.append({"fn": "clean64", "value": -999.0000001, "missing": False})
     items.append({"fn": "clean-masked"})
     items.append({"fn": "clean-int"})
     return items
@@ -314,9 +317,9 @@ def check_reader(case, ctx):
     import verif.util
     ctx.nt(case)
     ctx.sample(case)
-    if case["fn"] == "clean":
+    if case["fn"] in ("clean", "clean64"):
         v = float(case["value"])
-        for dtype in (np.float64, np.float32):
+        for dtype in ((np.float64, np.float32) if case["fn"] == "clean" else (np.float64,)):
             a = np.array([[1.0, v], [v, 2.0]], dtype)
             got = verif.util.clean(a)
             if case["missing"]:
